@@ -430,7 +430,7 @@ static void keyblock_suite(const Key &k, const Key &subrsa) {
 	gcry_mpi_t sn = NULL, se = NULL; if (gcry_sexp_extract_param(subrsa.key, NULL, "ne", &sn, &se, NULL)) return;
 	const int H = TMCG_OPENPGP_HASHALGO_SHA256, W = TMCG_OPENPGP_HASHALGO_SHA1;
 	struct Case { const char *name; long uid_dct, uid_se, uid_ke; int uid_ha; int direct; long d_se, d_ke; long b_dct, b_se, b_ke; int b_ha; int rev; long r_se;
-		bool want_self, want_uid, want_pubexp, want_subs, want_subexp, want_revoked; };
+		bool want_self, want_uid, want_pubexp, want_subs, want_subexp, want_revoked; int urev; long urev_se; int srev; long srev_se; };
 	// times relative to now; key created at now-20000, subkey at now-19000; dct = creation time of the signature minus now
 	static const Case C[] = {
 		{ "honest",            -10000, 0, 0, H, 1, 0, 0,         -10000, 0, 0, H, 0, 0,       true,  true,  false, true,  false, false },
@@ -452,6 +452,11 @@ static void keyblock_suite(const Key &k, const Key &subrsa) {
 		{ "bind-sig-weak-hash", -10000, 0, 0, H, 0, 0, 0,        -10000, 0, 0, W, 0, 0,       true,  true,  false, false, false, false },
 		{ "revocation",        -10000, 0, 0, H, 0, 0, 0,         -10000, 0, 0, H, 1, 0,       false, true,  false, true,  false, true },
 		{ "revocation-expired", -10000, 0, 0, H, 0, 0, 0,        -10000, 0, 0, H, 1, 1000,    true,  true,  false, true,  false, false },
+		// certification revocation (0x30) over the user ID and subkey revocation (0x28), in force and expired
+		{ "uid-revoked",       -10000, 0, 0, H, 0, 0, 0,         -10000, 0, 0, H, 0, 0,       false, false, false, true,  false, false, 1, 0, 0, 0 },
+		{ "uid-revocation-expired", -10000, 0, 0, H, 0, 0, 0,    -10000, 0, 0, H, 0, 0,       true,  true,  false, true,  false, false, 1, 1000, 0, 0 },
+		{ "subkey-revoked",    -10000, 0, 0, H, 0, 0, 0,         -10000, 0, 0, H, 0, 0,       true,  true,  false, false, false, false, 0, 0, 1, 0 },
+		{ "subkey-revocation-expired", -10000, 0, 0, H, 0, 0, 0, -10000, 0, 0, H, 0, 0,       true,  true,  false, true,  false, false, 0, 0, 1, 1000 },
 	};
 	for (const Case &c : C) {
 		long now = time(NULL); uint32_t kct = now - 20000;
@@ -465,8 +470,10 @@ static void keyblock_suite(const Key &k, const Key &subrsa) {
 		if (c.rev) add(1, SigSpec{ 0x20, (uint32_t)(now - 10000), (uint32_t)c.r_se, 0, H, -1 });
 		block.insert(block.end(), uidpkt.begin(), uidpkt.end());
 		add(0, SigSpec{ 0x13, (uint32_t)(now + c.uid_dct), (uint32_t)c.uid_se, (uint32_t)c.uid_ke, c.uid_ha, 3 });
+		if (c.urev) add(0, SigSpec{ 0x30, (uint32_t)(now - 9000), (uint32_t)c.urev_se, 0, H, -1 });
 		block.insert(block.end(), subpkt.begin(), subpkt.end());
 		add(2, SigSpec{ 0x18, (uint32_t)(now + c.b_dct), (uint32_t)c.b_se, (uint32_t)c.b_ke, c.b_ha, 12 });
+		if (c.srev) add(2, SigSpec{ 0x28, (uint32_t)(now - 9000), (uint32_t)c.srev_se, 0, H, -1 });
 		if (!built) continue;   // the primitive refused to sign (e.g. weak hash with this algorithm): nothing to test
 		std::string ctx = std::string(c.name) + "/" + k.name;
 		for (int path = 0; path < 2; path++) {   // key block alone, and as first key of a keyring
